@@ -219,9 +219,13 @@ pub(super) fn serialize<'se, W: Write>(
     let mut has_plutus_v3 = false;
     let plutus_added_length = match &wit_set.plutus_scripts {
         Some(scripts) => {
-            has_plutus_v1 = scripts.has_version(&Language::new_plutus_v1());
-            has_plutus_v2 = scripts.has_version(&Language::new_plutus_v2());
-            has_plutus_v3 = scripts.has_version(&Language::new_plutus_v3());
+            // like every other field: written iff non-empty or kept as original bytes (an empty array included)
+            has_plutus_v1 = scripts.has_version(&Language::new_plutus_v1())
+                || raw_parts.map(|x| x.plutus_scripts_v1.is_some()).unwrap_or(false);
+            has_plutus_v2 = scripts.has_version(&Language::new_plutus_v2())
+                || raw_parts.map(|x| x.plutus_scripts_v2.is_some()).unwrap_or(false);
+            has_plutus_v3 = scripts.has_version(&Language::new_plutus_v3())
+                || raw_parts.map(|x| x.plutus_scripts_v3.is_some()).unwrap_or(false);
             (has_plutus_v1 as u64) + (has_plutus_v2 as u64) + (has_plutus_v3 as u64)
         },
         _ => 0,
